@@ -1361,23 +1361,22 @@ def _fix_MatchOr(self: fst.FST, norm: bool | str = False) -> None:
 
             did_par = True
 
+    ln, col, end_ln, end_col = patterns[0].f.pars()
+
+    if len_patterns > 1:
+        _, _, end_ln, end_col = patterns[-1].f.pars()
+
+    col_offset = lines[ln].c2b(col)
+    end_col_offset = lines[end_ln].c2b(end_col)
+
+    _update_loc_up_parents(self, ln + 1, col_offset, end_ln + 1, end_col_offset)  # also when collapsing to the single element below, parents which ended at our old end need to follow
+
     if len_patterns == 1 and norm:
         pat0 = patterns[0]
 
         del patterns[0]
 
         self._set_ast(pat0, True)
-
-    else:
-        ln, col, end_ln, end_col = patterns[0].f.pars()
-
-        if len_patterns > 1:
-            _, _, end_ln, end_col = patterns[-1].f.pars()
-
-        col_offset = lines[ln].c2b(col)
-        end_col_offset = lines[end_ln].c2b(end_col)
-
-        _update_loc_up_parents(self, ln + 1, col_offset, end_ln + 1, end_col_offset)
 
     if is_root:
         if not self._is_enclosed_or_line() and not self._is_enclosed_in_parents():
